@@ -10,3 +10,40 @@ impl ZmodN {
     pub closed spec fn kval(&self) -> nat { self.k as nat }
 }
 } // verus!
+
+verus! {
+impl ZmodN {
+    /// representation invariant of the Montgomery context (R = W^k)
+    pub closed spec fn wf(&self) -> bool {
+        &&& 1 <= self.k <= 8
+        &&& uv(self.n) % 2 == 1
+        &&& uv(self.n) < pow_w(self.k as nat)
+        &&& (self.k == 8 ==> 2 * uv(self.n) <= pow_w(8))
+        &&& (uv(self.n) % W()) * (self.ninv64 as nat) % W() == W() - 1
+        &&& limbs(self.r.0@) == pow_w(self.k as nat) % uv(self.n)
+        &&& limbs(self.r2.0@) == (pow_w(self.k as nat) * pow_w(self.k as nat)) % uv(self.n)
+    }
+    /// R = W^k
+    pub closed spec fn rr(&self) -> nat { pow_w(self.k as nat) }
+    pub closed spec fn r_val(&self) -> nat { limbs(self.r.0@) }
+    pub closed spec fn r2_val(&self) -> nat { limbs(self.r2.0@) }
+}
+impl MInt {
+    pub open spec fn val(&self) -> nat { limbs(self.0@) }
+}
+pub assume_specification [<MInt as core::default::Default>::default] () -> (r: MInt)
+    ensures forall|k: int| 0 <= k < 8 ==> r.0@[k] == 0;
+} // verus!
+
+verus! {
+/// R4 outlining of `m[sz..sz + MINT_WORDS].try_into().unwrap()` (slice-to-array conversion has no Verus spec).
+/// Trusted contract: the eight words starting at sz.
+#[verifier::external_body]
+fn ol_redc_window(m: &[u64; 2 * MINT_WORDS], sz: usize) -> (r: [u64; MINT_WORDS])
+    requires sz + 8 <= 16
+    ensures r@ == m@.subrange(sz as int, sz + 8)
+{
+    m[sz..sz + MINT_WORDS].try_into().unwrap()
+}
+
+} // verus!
